@@ -13,6 +13,9 @@ Leg S2C : TLC -simulate behaviours (configuration + call order) are executed on 
           (file, document) ids.  Every state of the seek model becomes a real file + offset table for io.skip_lines.
           The groups of the "alloc" cases are what the REAL Allocator + calculate_worker_assignments put on one worker in
           one allocation column (over-committed parallel elements, several hosts).
+Leg pct : function-like: for every group size of 1..200 (thorough 300) bulks x every ingest percentage 1..100 and ten dyadic
+          fractional ones, a real parameter source shared by 1..3 co-located clients is drained and the number of bulks handed
+          out is validated by TLC against ceil(b * p / 100) in integer arithmetic (clause PctStop).
 Leg C2S : every recorded execution (also seeded random wider ones, files with > 50 000 lines so that
           prepare_file_offset_table / skip_lines / MmapSource take the table path, and bounds() on 10^9..10^12 documents)
           is validated by TLC against TraceBulkPartition.tla (L1 = clauses of the property on the recorded bulks,
@@ -485,6 +488,73 @@ def bounds_items(seed, count, prefix):
 
 
 # ---------------------------------------------------------------------------------------------------
+# function-like leg: (number of bulks of a group) x (ingest percentage) -> bulks handed out before StopIteration
+# ---------------------------------------------------------------------------------------------------
+# percentages as exact rationals num / den per cent: every integer 1..100 and dyadic fractions (exactly representable floats,
+# so that "ceil(p %)" of the statement is unambiguous)
+PCT_SWEEP = [(p, 1) for p in range(1, 101)] + [(1, 2), (5, 2), (25, 4), (25, 2), (75, 2), (125, 2), (175, 2), (199, 2), (1, 4), (399, 4)]
+
+
+def _drain_count(trk, task, n, cap):
+    """A fresh real parameter source shared by the n co-located clients, which pull bulks in turn until every one of them
+    got StopIteration. Returns the number of bulks handed out (cap + 1 = did not stop)."""
+    handles = make_handles(trk, task, [list(range(n))])
+    live = list(range(n))
+    got = 0
+    while live and got <= cap:
+        for c in list(live):
+            try:
+                handles[c].params_with_operation_type()
+                got += 1
+            except StopIteration:
+                live.remove(c)
+    return got
+
+
+def pct_item(root, b, pcts=None):
+    """A group of 1 + b % 3 co-located clients (all clients of the task) over a real file of b documents, bulk size 1:
+    b bulks at 100 %. One row per ingest percentage."""
+    from esrally.track import track
+
+    _quiet()
+    os.makedirs(root, exist_ok=True)
+    path = os.path.join(root, "p%d.json" % b)
+    if not os.path.exists(path):
+        with open(path, "wb") as f:
+            for j in range(b):
+                f.write(b'{"f":1,"d":%d}\n' % j)
+    n = 1 + b % 3
+    docs = track.Documents(source_format=track.Documents.SOURCE_FORMAT_BULK, document_file=path, number_of_documents=b, target_index="idx1")
+    corpora = [track.DocumentCorpus("corpus1", [docs])]
+
+    def count(pct):
+        prm = {"bulk-size": 1}
+        if pct is not None:
+            prm["ingest-percentage"] = pct
+        task = track.Task("bulk-task", track.Operation("bulk-op", track.OperationType.Bulk.to_hyphenated_string(), params=prm), clients=n)
+        trk = track.Track(name="c03", corpora=corpora, challenges=[track.Challenge("c", default=True, schedule=[task])])
+        return _drain_count(trk, task, n, b + 2)
+
+    rows = []
+    for num, den in pcts or PCT_SWEEP:
+        fr = Fraction(num, den)
+        val = int(fr) if fr.denominator == 1 else float(fr)
+        if Fraction(val) != fr:
+            raise tlc.MachineryError("percentage %s is not exactly representable" % fr)
+        rows.append({"num": num, "den": den, "got": count(val)})
+    return {"id": "pct-%d" % b, "kind": "pct", "b": count(None), "rows": rows, "case": {"kind": "pct", "src": "pct-sweep", "docs": b, "clients": n, "pcts": [[r["num"], r["den"]] for r in rows]}}
+
+
+def _pct_detail(it):
+    """Human-readable first mismatch (the verdict itself is TLC's)."""
+    for r in it["rows"]:
+        exact = -((-it["b"] * r["num"]) // (100 * r["den"]))
+        if r["got"] != exact:
+            return "group with %d bulks, ingest-percentage %s: %d bulks handed out, ceil = %d" % (it["b"], Fraction(r["num"], r["den"]), r["got"], exact)
+    return ""
+
+
+# ---------------------------------------------------------------------------------------------------
 # case sources
 # ---------------------------------------------------------------------------------------------------
 def _cfg_from_state(st):
@@ -568,7 +638,7 @@ def random_cases(seed, n):
         N = rnd.choice([1, 2, 3, 4, 5, 6, 7, 8, 10, 12, 14, 16])
         total = sum(f["docs"] for f in files)
         bulk = rnd.randint(max(1, total // 40), max(2, total // 6))
-        num, den = rnd.choice(PCTS)
+        num, den = rnd.choice(PCTS) if rnd.random() < 0.6 else (rnd.randint(1, 99), 100)
         groups = _contiguous_split(rnd, N, 5)
         cfg = {"N": N, "groups": groups, "bulk": bulk, "mult": rnd.choice([1, 1, 2, 3, 5]), "num": num, "den": den, "conflict": conflict, "onc": rnd.choice(["index", "update"]) if conflict != "none" else "index"}
         order = []
@@ -794,7 +864,7 @@ def run(ctx, out):
         "share one parameter source, bulk size, batch multiplier, ingest percentage, conflict mode, order of params() calls); distinct by "
         "hash; non-trivial = at least 2 bulks handed out. Sources: TLC -simulate behaviours (S2C), splits computed by the real Allocator + "
         "calculate_worker_assignments, files with > 50 000 lines, seeded random wider cases (C2S only); plus one seek case per state of "
-        "the seek model and bounds() chains on up to 10^12 documents."
+        "the seek model, bounds() chains on up to 10^12 documents, and one case per group size (1..200/300 bulks) with a row per ingest percentage."
     )
     out.assumptions = [
         "a group = the in-task client ids of ONE task that one worker holds in ONE allocation column (they share a parameter source); the real "
@@ -841,6 +911,20 @@ def run(ctx, out):
     judge(sitems + bitems, dict(sindex, **bindex), out, "c03seek", chunk=6000)
     out.note("leg S2C/C2S: %d seek cases from the seek model, %d bounds() chains validated" % (len(sitems), len(bitems)))
     out.sample({"source": "bounds", "case": bitems[0]["case"], "per_client": bitems[0]["per"][:3]})
+    # ---- function-like leg: every (bulks of a group 1..200/300) x (ingest percentage) pair on real parameter sources
+    pitems = [pct_item(os.path.join(root, "pct"), b) for b in range(1, (200 if quick else 300) + 1)]
+    pindex = {it["id"]: it["case"] for it in pitems}
+    for it in pitems:
+        out.add_case(("pct", it["case"]["docs"], it["case"]["clients"]), nontrivial=it["b"] > 1)
+    n_before = len(out.violations)
+    judge(pitems, pindex, out, "c03pct", chunk=400)
+    byid = {it["id"]: it for it in pitems}
+    for v in out.violations[n_before:]:
+        v.detail += "; " + _pct_detail(byid["pct-%d" % v.case["docs"]])
+    out.extra["pct_sweep"] = {"groups": len(pitems), "percentages": len(PCT_SWEEP), "pairs": len(pitems) * len(PCT_SWEEP)}
+    out.note("leg pct: %d (bulks, ingest-percentage) pairs drained from real parameter sources and validated against the exact ceil" % (len(pitems) * len(PCT_SWEEP)))
+    out.sample({"source": "pct-sweep", "bulks": pitems[99]["b"], "clients": pitems[99]["case"]["clients"], "rows": pitems[99]["rows"][5:8]})
+    shutil.rmtree(os.path.join(root, "pct"), ignore_errors=True)
     # ---- Leg S2C + C2S: behaviours
     sim = behaviours_from_tlc(ctx, out, 250 if quick else 3000)
     out.note("leg S2C: %d TLC behaviours" % len(sim))
@@ -876,6 +960,11 @@ def replay(ctx, case):
     root = tlc.scratch("c03replay")
     if kind == "run":
         run_cases([case], out, "replay", root)
+    elif kind == "pct":
+        it = pct_item(os.path.join(root, "pct"), case["docs"], [tuple(x) for x in case["pcts"]])
+        judge([it], {it["id"]: dict(case)}, out, "c03replay")
+        for v in out.violations:
+            v.detail += "; " + _pct_detail(it)
     elif kind == "bnd":
         it = bounds_item("replay", int(case["total"]), case["N"], case["meta"], case["ranges"])
         judge([it], {"replay": dict(case)}, out, "c03replay")
